@@ -25,7 +25,7 @@ CONSTANTS NCpuSet, NFSet, ClkSet,   \* import-time configurations explored
           Fns,                      \* subset of {"cp", "ctp"}
           Forms,                    \* subset of {"per", "tot"}  (percpu=True / False)
           Modes,                    \* subset of {"nb", "block", "neg", "times"}
-          DeltaMode,                \* "full": every vector over ActiveF x DVals on one CPU
+          DeltaMode,                \* "full": every vector over ActiveF x DVals on the first CPU
                                     \* "pat" : the named patterns of Patterns
           DPos, DNeg,               \* DVals = DPos \cup {-x : x \in DNeg}
           Patterns,                 \* named delta vectors of kernel advances
